@@ -6,10 +6,11 @@ rows = []
 for d in sorted(glob.glob(os.path.join(V, "seeded", "*", "meta.json"))):
     m = json.load(open(d))
     name = os.path.basename(os.path.dirname(d))
-    rows.append(f"| {name} | {m['breaks']} | {m['needs_to_manifest']} | {'yes' if m['detected_before_strengthening'] else '**no**'} | {', '.join(m['detected_by'])} | {'; '.join(m['rules'])} |")
+    rows.append(f"| {name} | {m['breaks']} | {m['needs_to_manifest']} | {'yes' if m['detected_before_strengthening'] else '**no**'} | {', '.join(m['detected_by']) or '**none**'} | {'; '.join(m['rules']) or m.get('note','')[:160]} |")
 n = len(rows)
 nb = sum(1 for r in rows if '| yes |' in r)
-out = [f"{n} changes kept; {nb} were reported by the checks as they stood when the change arrived, {n - nb} were missed at first and led to the strengthening named in the last column; all {n} are reported now (thorough tier re-checks this on every run).", "",
+und = [os.path.basename(os.path.dirname(d)) for d in sorted(glob.glob(os.path.join(V, "seeded", "*", "meta.json"))) if not json.load(open(d))["detected_by"]]
+out = [f"{n} changes kept; {nb} were reported by the checks as they stood when the change arrived, {n - nb} were missed at first and led to the strengthening named in the last column; {n - len(und)} are reported now (thorough tier re-checks this on every run)" + (f"; NOT reported: {', '.join(und)} (see the note in its meta.json and 8.4a below)." if und else "."), "",
        "| change | what it breaks | needs to manifest | caught as first run | reported by | rules |", "|---|---|---|---|---|---|"] + rows
 p = os.path.join(V, "DESIGN.md")
 s = open(p).read()
